@@ -28,6 +28,10 @@ fn addr_of(class: &str, good: &str) -> Value {
             let (_, data, _) = bech32::decode(good).unwrap();
             json!(bech32::encode("cosmos", data, bech32::Variant::Bech32).unwrap())
         }
+        "extprefix" => {
+            let (hrp, data, _) = bech32::decode(good).unwrap();
+            json!(bech32::encode(&format!("{hrp}x"), data, bech32::Variant::Bech32).unwrap())
+        }
         "badchecksum" => {
             let mut s = good.to_string();
             let last = s.pop().unwrap();
@@ -47,6 +51,7 @@ fn list_of(class: &str, a1: &str, a2: &str) -> Value {
         "dupfar" => json!([a1, a2, a1]),
         "dupcasefar" => json!([a1.to_uppercase(), a2, a1]),
         "onewrongprefix" => json!([a1, addr_of("wrongprefix", a2)]),
+        "oneextprefix" => json!([a1, addr_of("extprefix", a2)]),
         "onebadchecksum" => json!([a1, addr_of("badchecksum", a2)]),
         _ => json!([a1, a1.to_uppercase()]),
     }
@@ -189,15 +194,26 @@ pub fn run_all(text: &str, out: &mut dyn std::io::Write) -> usize {
     let mut base = Base { run: Run::new(Setup { treasury: true, ..Setup::default() }, 1) };
     base.run.start(&mut sink);
     base.run.apply(&mut sink, &json!({"m":"resume_contract","s":"admin","n":0,"l":0,"r":0}));
+    // ... and its twin that was never resumed (halted): UpdateConfig must leave the halted flag alone in BOTH states
+    let mut halted = Base { run: Run::new(Setup { treasury: true, ..Setup::default() }, 3) };
+    halted.run.start(&mut sink);
     let mut n = 0usize;
+    let mut work: Vec<(usize, Value, String)> = vec![];
     for (lineno, line) in text.lines().enumerate() {
         if !line.starts_with("\"CFG ") {
             continue;
         }
         let Ok(s) = serde_json::from_str::<String>(line.trim()) else { continue };
         let msg: Value = serde_json::from_str(&s[4..]).unwrap();
+        let kind = msg["kind"].as_str().unwrap_or("").to_string();
+        work.push((lineno, msg.clone(), kind.clone()));
+        if kind == "update" {
+            work.push((lineno, msg, "update_halted".to_string()));
+        }
+    }
+    for (lineno, msg, kind) in work {
+        let kind = kind.as_str();
         let c = &msg["classes"];
-        let kind = msg["kind"].as_str().unwrap_or("");
         let rec = match kind {
             "instantiate" => {
                 let r = Run::new(Setup::default(), 2);
@@ -217,8 +233,8 @@ pub fn run_all(text: &str, out: &mut dyn std::io::Write) -> usize {
                        "halted": !o.ok || cfg["stopped"] == json!(true),
                        "unchanged": json!({}), "replaced": json!({})})
             }
-            "update" => {
-                let r = &base.run;
+            "update" | "update_halted" => {
+                let r = if kind == "update" { &base.run } else { &halted.run };
                 let sec = sections_of(r, c, true);
                 let supplied: Vec<String> = msg["sections"].as_array().map(|a| a.iter().map(|x| x.as_str().unwrap_or("").to_string()).collect()).unwrap_or_default();
                 let mut up = json!({});
@@ -246,7 +262,7 @@ pub fn run_all(text: &str, out: &mut dyn std::io::Write) -> usize {
                     replaced[s] = json!(qv[s] == want);
                 }
                 let sub_stored = post["liquid_stake_token_denom"].as_str().unwrap_or("").rsplit('/').next().unwrap_or("").to_string();
-                json!({"kind": kind, "classes": c, "sections": msg["sections"], "want": msg["want"], "ok": o.ok, "panic": o.panic, "err": o.err,
+                json!({"kind": "update", "on_halted": kind == "update_halted", "classes": c, "sections": msg["sections"], "want": msg["want"], "ok": o.ok, "panic": o.panic, "err": o.err,
                        "stored": classify(&post, &sub_stored),
                        "lst_ok": pre["liquid_stake_token_denom"] == post["liquid_stake_token_denom"],
                        "halted": pre["stopped"] == post["stopped"],
